@@ -51,7 +51,12 @@ def cpp_specs(ctx, files_quick=7, per_file=80, rand_files_quick=2, rand_per_file
                            ['u64<>', 'u8<>', 'u8'],
                            # structs that are dynamic only through a nested, non-last dynamic member: their wrappers
                            # (_WN: fields after it, _WD: elements of an array) are three-level nestings
-                           ['Dy4', 'u8'], ['u8', 'Dy4', 'u16'], ['Dy8', 'Fx2'], ['Dy1', 'u64']]})
+                           ['Dy4', 'u8'], ['u8', 'Dy4', 'u16'], ['Dy8', 'Fx2'], ['Dy1', 'u64'],
+                           # a block after a dynamic field whose alignment comes only from the 4-byte flag of a small
+                           # optional that is not the block's first member
+                           ['u8<>', 'u8', 'u16*'], ['u8<>', 'u8', 'u8*'], ['u16<@>', 'u8', 'Fx2*'], ['bytes<>', 'u16', 'En*'],
+                           # limited array followed by a smaller- and then a larger-aligned member
+                           ['u16<2>', 'u8', 'u32'], ['bytes<5>', 'u8', 'u64'], ['u8<>', 'u8', 'FxO<2>', 'u8', 'u64']]})
     nrf = ctx.pick(rand_files_quick, rand_files_thorough)
     for i in range(nrf):
         seeds = [ctx.seed * 100000 + 7000 + i * rand_per_file + k for k in range(rand_per_file)]
